@@ -178,6 +178,9 @@ def run(ctx):
         for c in near + [None, '']:
             for op in OPS + BAD_OPS:
                 triples.append((op, b, c))
+    ntr = len(triples)
+    # digit runs beyond the interpreter's limit on int <-> str conversion (a few: each costs the extracted model about a second)
+    triples += [(op, b, c) for op in OPS for b, c in ((_ver.BIG[0], _ver.BIG[1]), (_ver.BIG[1], _ver.BIG[0]), (_ver.BIG[0], _ver.BIG[0]))]
     pairs = sorted(set((c, b) for _, b, c in triples if c))
     sg = ctx.model.run([('dpkg_compare_sgn', [c, b]) for c, b in pairs])
     sgn_of = dict(zip(pairs, sg))
@@ -185,7 +188,7 @@ def run(ctx):
     ctx.exhaustive.append('7 operators + %d unknown x candidates on every side of %d required versions' % (len(BAD_OPS), len(reqs)))
 
     # correspondence on the same and on random trees
-    reqs_m = [('rel_matches', [['V', NAME, op, b, []], NAME, c]) for op, b, c in triples[:ctx.n(20000, 200000)]]
+    reqs_m = [('rel_matches', [['V', NAME, op, b, []], NAME, c]) for op, b, c in triples[:min(ntr, ctx.n(20000, 200000))]]
     reqs_m += [('rel_matches', [['V', NAME, op, b, []], NAME, [0, c, '0']]) for op, b, c in triples[:3000] if c and c.isalnum()]
     bad = ctx.compare('corr:versioned', reqs_m, impl)
     trees = [rand_tree(rng) for _ in range(ctx.n(6000, 80000))]
